@@ -250,3 +250,13 @@ package frame
 //@   ensures  [every-complete-frame-is-forwarded] P0 < streamAvail(r.BufByteReader) && specFrameComplete(r.BufByteReader, P0) ==> rerr == nil
 //@   canary   rerr != nil
 //@   modifies *r.BufByteReader, r.curReadSignatureTime, w.bw[:], ghost:log
+
+// the helper that re-encodes a decoded message inside a frame (inlined at its call sites; verified on its own so that
+// the version it encodes for is pinned): one encoding, by the given codec, for the frame's OWN version
+//@ func encodeMessageInFrame
+//@   inline
+//@   ghostlog (*message.ReadWriter).Write+contract
+//@   requires fr != nil && mp != nil && specFrameMessage(fr) != nil && !specIsRaw(specFrameMessage(fr)) && message.SpecCodecInv(mp)
+//@   ensures  [encoded-once-for-the-frames-own-version] logLen() == 1 && logCallee(0, "(*message.ReadWriter).Write") && logArgIsPtr(0, 0, mp) &&
+//@              logArg(0, 1) == any(old(specFrameMessage(fr))) && logArgBool(0, 2) == SpecIsV2(fr) && specFrameMessage(fr) == any(logRetAny(0, 0))
+//@   modifies ghost:log, *specMessageField(fr)
